@@ -73,6 +73,17 @@ def run(tier, seed):
                 base.update({"domain": [100], "user": [117], "password": [112, 119], "mode": "password", "flags": ntlm.FLAGS["default"], "sc": [9] * 8, "ti": [[7, [0] * 8]], "tname": []})
             base["id"] = "lens-" + kind
             plans.append(base)
+        # long messages (around 1 KiB, 2 KiB, 4 KiB, 16 KiB: block sizes an implementation of the cipher might work in), in both
+        # directions, short ones in between: the key stream is continuous across messages whatever their length
+        for kind in ("key", "handshake"):
+            seq = [1023, 3, 1024, 1025, 0, 2047, 2048, 2049, 7, 4096, 4097, 16384, 1, 16385, 5000]
+            base = {"steps": [{"dir": "c2s" if (i // 2) % 2 == 0 else "s2c", "len": n, "tamper": "some" if n < 3000 else "none"} for i, n in enumerate(seq + seq[::-1])]}
+            if kind == "key":
+                base["exported"] = [rng.randrange(256) for _ in range(16)]
+            else:
+                base.update({"domain": [100], "user": [117], "password": [112, 119], "mode": "hash", "flags": ntlm.FLAGS["default"], "sc": [7] * 8, "ti": [[7, [0] * 8]], "tname": []})
+            base["id"] = "long-" + kind
+            plans.append(base)
         # the same Ntlm object used for a second handshake: the security context must come from the second session key
         for k, p in enumerate([q for q in plans if "exported" not in q and "steps" in q][:12]):
             q = json.loads(json.dumps(p)); q["id"] = "reuse%d" % k; q["reuse"] = True
